@@ -23,15 +23,26 @@ pub mod table {
 
 	pub const CAP: usize = 4;
 
+	/// Four explicit slots (not an array): every access goes through a `match`
+	/// on the slot number, so that CBMC never has to dereference a pointer
+	/// with a symbolic offset into the table (the array version ran out of
+	/// memory as soon as a `Vec` inside a slot selected by a symbolic key was
+	/// modified).
 	#[derive(Clone)]
 	pub struct RawTable<T> {
-		slots: [Option<(u64, T)>; CAP],
+		s0: Option<(u64, T)>,
+		s1: Option<(u64, T)>,
+		s2: Option<(u64, T)>,
+		s3: Option<(u64, T)>,
 	}
 
 	impl<T> Default for RawTable<T> {
 		fn default() -> Self {
 			Self {
-				slots: [None, None, None, None],
+				s0: None,
+				s1: None,
+				s2: None,
+				s3: None,
 			}
 		}
 	}
@@ -56,7 +67,7 @@ pub mod table {
 	}
 
 	pub struct RawIter<T> {
-		base: *mut Option<(u64, T)>,
+		table: *mut RawTable<T>,
 		next: usize,
 	}
 
@@ -67,7 +78,7 @@ pub mod table {
 			while self.next < CAP {
 				let slot = self.next;
 				self.next += 1;
-				let cell = unsafe { &mut *self.base.add(slot) };
+				let cell = unsafe { (*self.table).cell_mut(slot) };
 				if let Some(pair) = cell {
 					return Some(Bucket {
 						ptr: pair as *mut (u64, T),
@@ -80,112 +91,149 @@ pub mod table {
 	}
 
 	impl<T> RawTable<T> {
-		pub fn len(&self) -> usize {
-			let mut n = 0;
-			let mut i = 0;
-			while i < CAP {
-				if self.slots[i].is_some() {
-					n += 1
-				}
-				i += 1;
+		fn cell(&self, i: usize) -> &Option<(u64, T)> {
+			match i {
+				0 => &self.s0,
+				1 => &self.s1,
+				2 => &self.s2,
+				_ => &self.s3,
 			}
-			n
+		}
+
+		fn cell_mut(&mut self, i: usize) -> &mut Option<(u64, T)> {
+			match i {
+				0 => &mut self.s0,
+				1 => &mut self.s1,
+				2 => &mut self.s2,
+				_ => &mut self.s3,
+			}
+		}
+
+		pub fn len(&self) -> usize {
+			self.s0.is_some() as usize + self.s1.is_some() as usize + self.s2.is_some() as usize + self.s3.is_some() as usize
 		}
 
 		fn position(&self, hash: u64, mut eq: impl FnMut(&T) -> bool) -> Option<usize> {
-			let mut i = 0;
-			while i < CAP {
-				if let Some((h, v)) = &self.slots[i] {
-					if *h == hash && eq(v) {
-						return Some(i);
+			macro_rules! probe {
+				($f:ident, $i:expr) => {
+					if let Some((h, v)) = &self.$f {
+						if *h == hash && eq(v) {
+							return Some($i);
+						}
 					}
-				}
-				i += 1;
+				};
 			}
+			probe!(s0, 0);
+			probe!(s1, 1);
+			probe!(s2, 2);
+			probe!(s3, 3);
 			None
 		}
 
 		pub fn get(&self, hash: u64, eq: impl FnMut(&T) -> bool) -> Option<&T> {
 			match self.position(hash, eq) {
-				Some(i) => self.slots[i].as_ref().map(|p| &p.1),
+				Some(0) => self.s0.as_ref().map(|p| &p.1),
+				Some(1) => self.s1.as_ref().map(|p| &p.1),
+				Some(2) => self.s2.as_ref().map(|p| &p.1),
+				Some(_) => self.s3.as_ref().map(|p| &p.1),
 				None => None,
 			}
 		}
 
 		pub fn get_mut(&mut self, hash: u64, eq: impl FnMut(&T) -> bool) -> Option<&mut T> {
 			match self.position(hash, eq) {
-				Some(i) => self.slots[i].as_mut().map(|p| &mut p.1),
+				Some(0) => self.s0.as_mut().map(|p| &mut p.1),
+				Some(1) => self.s1.as_mut().map(|p| &mut p.1),
+				Some(2) => self.s2.as_mut().map(|p| &mut p.1),
+				Some(_) => self.s3.as_mut().map(|p| &mut p.1),
 				None => None,
 			}
 		}
 
 		pub fn find(&self, hash: u64, eq: impl FnMut(&T) -> bool) -> Option<Bucket<T>> {
-			match self.position(hash, eq) {
-				Some(i) => {
-					let base = self.slots.as_ptr() as *mut Option<(u64, T)>;
-					let cell = unsafe { &mut *base.add(i) };
-					cell.as_mut().map(|pair| Bucket {
+			let this = self as *const Self as *mut Self;
+			macro_rules! bucket {
+				($f:ident, $i:expr) => {
+					unsafe { (*this).$f.as_mut() }.map(|pair| Bucket {
 						ptr: pair as *mut (u64, T),
-						slot: i,
+						slot: $i,
 					})
-				}
+				};
+			}
+			match self.position(hash, eq) {
+				Some(0) => bucket!(s0, 0),
+				Some(1) => bucket!(s1, 1),
+				Some(2) => bucket!(s2, 2),
+				Some(_) => bucket!(s3, 3),
 				None => None,
 			}
 		}
 
 		pub fn insert(&mut self, hash: u64, value: T, hasher: impl Fn(&T) -> u64) -> Bucket<T> {
 			// A real table may re-hash any stored element here (growth).
-			let mut i = 0;
-			while i < CAP {
-				if let Some((h, v)) = &self.slots[i] {
-					assert!(
-						hasher(v) == *h,
-						"C06:index-stale-hash: a stored index entry no longer hashes to the value it was stored under"
-					);
-				}
-				i += 1;
+			macro_rules! fresh {
+				($f:ident) => {
+					if let Some((h, v)) = &self.$f {
+						assert!(
+							hasher(v) == *h,
+							"C06:index-stale-hash: a stored index entry no longer hashes to the value it was stored under"
+						);
+					}
+				};
 			}
-			let mut i = 0;
-			while i < CAP {
-				if self.slots[i].is_none() {
-					self.slots[i] = Some((hash, value));
-					let pair = self.slots[i].as_mut().unwrap();
-					return Bucket {
-						ptr: pair as *mut (u64, T),
-						slot: i,
-					};
-				}
-				i += 1;
+			fresh!(s0);
+			fresh!(s1);
+			fresh!(s2);
+			fresh!(s3);
+			macro_rules! put {
+				($f:ident, $i:expr) => {
+					if self.$f.is_none() {
+						self.$f = Some((hash, value));
+						let pair = self.$f.as_mut().unwrap();
+						return Bucket {
+							ptr: pair as *mut (u64, T),
+							slot: $i,
+						};
+					}
+				};
 			}
+			put!(s0, 0);
+			put!(s1, 1);
+			put!(s2, 2);
+			put!(s3, 3);
 			panic!("model table capacity exceeded (outside the stated bound)")
 		}
 
 		/// # Safety
 		/// `bucket` must come from this table and still be live.
 		pub unsafe fn remove(&mut self, bucket: Bucket<T>) -> T {
-			self.slots[bucket.slot].take().unwrap().1
+			match bucket.slot {
+				0 => self.s0.take().unwrap().1,
+				1 => self.s1.take().unwrap().1,
+				2 => self.s2.take().unwrap().1,
+				_ => self.s3.take().unwrap().1,
+			}
 		}
 
 		/// # Safety
 		/// Same contract as `hashbrown::raw::RawTable::iter`.
 		pub unsafe fn iter(&self) -> RawIter<T> {
 			RawIter {
-				base: self.slots.as_ptr() as *mut Option<(u64, T)>,
+				table: self as *const Self as *mut Self,
 				next: 0,
 			}
 		}
 
 		pub fn clear(&mut self) {
-			let mut i = 0;
-			while i < CAP {
-				self.slots[i] = None;
-				i += 1;
-			}
+			self.s0 = None;
+			self.s1 = None;
+			self.s2 = None;
+			self.s3 = None;
 		}
 
 		/// Harness-side read access: stored (hash, value) of slot `i`.
 		pub fn slot(&self, i: usize) -> Option<&(u64, T)> {
-			self.slots[i].as_ref()
+			self.cell(i).as_ref()
 		}
 	}
 
